@@ -27,6 +27,8 @@ def gen_cases(seed, tier, n):
         c = tracegen.gen_case(seed, i, tracegen.PROFILES[profs[i % len(profs)]])
         rng = random.Random(seed * 7919 + i)
         c["params"] = {"pseed": rng.randint(0, 10 ** 9)}
+        if i % 3 == 1:
+            tracegen.relabel_ranks(c)      # a subset of a job: rank ids are not 0..n-1, and not listed in order
         out.append(c)
     return out
 
